@@ -188,7 +188,10 @@ def plan(tier, seed):
             e = rnd.choice(cands)
             p["skips"] = [["before_" + e["kind"], e["id"]]]
             late = [x for x in flat["elems"] if x["kind"] == "scenario" and x["steps"]]
-            if late and rnd.random() < 0.5:
+            # (not with scenarios that have no steps: a late skip() pins them to skipped and thereby wipes an earlier
+            #  hook error of theirs -- observed, outside every listed quantifier, see DESIGN 11.5)
+            stepless = any(x["kind"] == "scenario" and not x["steps"] for x in flat["elems"])
+            if late and not stepless and rnd.random() < 0.5:
                 # "skip the rest": the after_scenario hook of a scenario calls skip() on its feature or rule
                 s = rnd.choice(late)
                 ancs = []
@@ -309,7 +312,7 @@ def shared(chk, part="core"):
     """Run (or load) the shared stage for this tree / tier / seed.  Returns a dict:
        n_runs, tlc: [{module,cfg,distinct,generated,wall,coverage}], verdicts: {clause: [ {key, ...} ]},
        divergences, samples, design_violations"""
-    key = tree_key({"tier": chk.tier, "seed": chk.seed, "part": part, "v": 21})
+    key = tree_key({"tier": chk.tier, "seed": chk.seed, "part": part, "v": 22})
     os.makedirs(CACHE, exist_ok=True)
     # one entry per (part, tier, repository location): runs against a mutated copy must not evict /repo's entry
     prefix = "%s-%s-%s-" % (part, chk.tier, hashlib.sha256(REPO.encode()).hexdigest()[:8])
